@@ -152,7 +152,10 @@ def scenario_for(seed, index, tier):
              'login': [['success']],
              'play': [['ka', 4], ['disconnect', '{"text":"done"}']]}]},
         'net': {'latency_us': rng.choice([50, 500, 20000]),
-                'segment': seg, 'short_read': seg},
+                'segment': seg, 'short_read': seg,
+                # writing to a server that has already closed may fail
+                'send_error': status['mode'] in ('close_on_accept',
+                                                 'close_on_request')},
         'sched': {'granularity': rng.choice(['io', 'io', 'line']),
                   'max_steps': 300000},
         'rand_seed': rng.randrange(2**32),
@@ -167,7 +170,7 @@ def scenario_for(seed, index, tier):
 def policy(rng, scenario):
     return Policy(p_sched=rng.choice([0, 0.02, 0.2]),
                   p_event=rng.choice([0, 0.1, 0.4]), p_short=0.3, p_seg=0.3,
-                  name='c09')
+                  p_io=rng.choice([0, 0.5, 1.0]), name='c09')
 
 
 def resolve(versions, names, sup):
@@ -360,6 +363,11 @@ def check(scenario, w, st, res):
         ob(4)
         hs = app.handshake
         if hs is None:
+            if sim.stats.get('fault.send-error') and \
+                    scenario['status']['mode'] in ('close_on_accept',
+                                                   'close_on_request') \
+                    and app.conn.index == 0:
+                continue     # the send of the handshake itself failed
             V.append(('C09/no-handshake', app.conn.index))
             return
         if hs['protocol'] != ec['proto']:
@@ -372,8 +380,14 @@ def check(scenario, w, st, res):
             V.append(('C09/handshake-next-state',
                       {'conn': app.conn.index, 'got': hs['next_state'],
                        'want': ec['next']}))
-        if app.errors:
-            V.append(('C09/malformed-client-frames', app.errors[:2]))
+        errors = list(app.errors)
+        if sim.stats.get('fault.send-error'):
+            # a frame whose second send() failed on the closed connection is
+            # cut short by the fault, not by the client
+            errors = [e for e in errors if not e.startswith(
+                'client stream ended inside a frame')]
+        if errors:
+            V.append(('C09/malformed-client-frames', errors[:2]))
         if ec['next'] == 1:
             ob()
             if app.status_requests != 1 and not (
